@@ -25,16 +25,17 @@ LEAF_FINGERPRINT = {
 }
 # frame decoding, error construction and Option/Result/iterator plumbing: not part of what a leaf accepts
 PLUMBING = ("deref", "and_then", "ok", "map_err", "branch", "from_residual", "ok_or_else", "ok_or", "collect", "map", "from_iter", "new_display", "new", "format", "must_use",
-            "from_utf8", "message_format", "message_static_message", "into", "from", "to_string", "unexpected_format", "expected_format")
+            "from_utf8", "message_format", "message_static_message", "into", "from", "to_string", "unexpected_format", "expected_format", "filter", "then", "then_some",
+            "as_ref", "as_deref", "copied", "cloned", "unwrap_or", "unwrap_or_default", "is_some", "is_ok")
 UUID = G.SAMPLE_UUID
 
 
 def leaf_fingerprints(prog):
+    """per parser.rs leaf function: the semantic callees of its closures, and of the parser.rs helper functions it hands to a combinator
+    by name (`string().and_then(parse_stream_id)`)"""
     out = {}
-    for p, b in prog.bodies.items():
-        if not p.startswith(S + "parser::") or "{closure" not in p:
-            continue
-        fn = p[len(S + "parser::"):].split("::", 1)[0]
+
+    def add(fn, b):
         s = out.setdefault(fn, set())
         for _, t in b.calls():
             c = b.callee_decl(t) or ""
@@ -45,6 +46,22 @@ def leaf_fingerprints(prog):
             if last in PLUMBING:
                 continue
             s.add(last)
+
+    for p, b in prog.bodies.items():
+        if not p.startswith(S + "parser::"):
+            continue
+        fn = p[len(S + "parser::"):].split("::", 1)[0]
+        if "{closure" in p:
+            add(fn, b)
+        else:
+            # helper functions of parser.rs passed by name to a combinator of this leaf
+            for _, t in b.calls():
+                for a in t["args"]:
+                    if isinstance(a, dict) and "fn" in a:
+                        hp = a.get("res") or a.get("fn") or ""
+                        hb = prog.bodies.get(hp)
+                        if hb is not None and hp.startswith(S + "parser::") and hp != p and not hp.split("::")[-1] in LEAF_FINGERPRINT:
+                            add(fn, hb)
     return out
 
 
